@@ -64,7 +64,7 @@ Definition s_value (c : sstate) : option elem :=
 (* reading may fix the element end of a text iterator *)
 Definition s_read (c : sstate) : sstate :=
   match c with
-  | CStr full (EV v :: y :: r) _ => CStr full (EV v :: y :: r) true
+  | CStr full (e :: y :: r) _ => CStr full (e :: y :: r) (match e with EErr _ => false | _ => true end)
   | CStr full [] r => c
   | CStr full rest _ => CStr full rest false
   | _ => c
